@@ -714,7 +714,7 @@ func c01Writer(c *fw.Ctx) fw.Outcome {
 }
 
 func init() {
-	n := func(tier string) int64 { return tierN(tier, 4000, 60000) }
+	n := func(tier string) int64 { return tierN(tier, 4000, 240000) }
 	fw.Register(&fw.Property{
 		ID:    "C01",
 		Level: "exploration",
